@@ -402,18 +402,22 @@ func TestExhaustive(t *testing.T) {
 	alpha := []string{"a", "b", " ", "-", "\n", "宽", "e\u0301", "\u3000"}
 	maxLen := 6
 	if harness.Thorough() {
+		// every string up to length 7 over all nine symbols; the strings of
+		// length 8 are enumerated below over the eight symbols without the
+		// wide space (9^8 x 7 widths does not fit the budget)
 		alpha = append(alpha, "（")
-		maxLen = 8
+		maxLen = 7
 	}
 	idx := 0
 	fails := 0
+	minLen := 0
 	var rec func(prefix []string)
 	rec = func(prefix []string) {
 		if fails > 3 {
 			return
 		}
 		idx++
-		if harness.Mine(idx) {
+		if harness.Mine(idx) && len(prefix) >= minLen {
 			for w := 0; w <= 6; w++ {
 				c := Case{Text: append([]string{}, prefix...), Width: w}
 				harness.R.Eval(sub)
@@ -438,6 +442,11 @@ func TestExhaustive(t *testing.T) {
 		}
 	}
 	rec(nil)
+	if harness.Thorough() {
+		alpha = []string{"a", "b", " ", "-", "\n", "宽", "e\u0301", "（"}
+		maxLen, minLen = 8, 8
+		rec(nil)
+	}
 	if fails == 0 {
 		harness.R.Exhaustive(sub)
 	}
